@@ -289,6 +289,12 @@ func genValue(t *rapid.T, label string) *big.Int {
 			// k prime bases, Carmichael numbers) and primes next to word boundaries: the natural
 			// boundary values of ProbablyPrime
 			v, _ = new(big.Int).SetString(pseudoprimes[gen.Pick(t, len(pseudoprimes), label+"pspk")], 10)
+		} else if gen.Pick(t, 2, label+"ext") == 0 {
+			// the extremes of the machine integer types, exactly: where a fast path written in
+			// int64/uint64 arithmetic wraps (MinInt64 / -1, -MinInt64, MaxUint64 + 1)
+			v, _ = new(big.Int).SetString([]string{"-9223372036854775808", "9223372036854775808", "9223372036854775807", "18446744073709551615",
+				"-2147483648", "4294967295", "-9223372036854775807", "340282366920938463463374607431768211455", "-1", "1"}[gen.Pick(t, 10, label+"extk")], 10)
+			return v
 		}
 	case 1, 2:
 		b := rapid.SampledFrom([]uint{31, 32, 33, 62, 63, 64, 65, 126, 127, 128, 129, 130, 192, 256}).Draw(t, label+"b")
